@@ -42,6 +42,17 @@ CLAIMED = {
              "Interrupt from another thread racing with run() is explored separately with the cooperative scheduler (see DESIGN 5/C14).",
         ref="5/C14", technique="TLA+ refinement model checking (TLC) + state-graph replay over OS shim with virtual clock + TLC trace validation",
         note="Trusts TLC, the OS shim (filters real epoll readiness, virtual CLOCK_MONOTONIC), the callback action queue of the harness; <= 6 timers, <= 3 clients; listener/establisher sockets not yet driven."),
+    "C11": dict(
+        text="TLC model-checks PrimsImpl.tla - the code of Mutex/Semaphore/Signal/Monitor over a pthread model with recursive "
+             "mutexes, spurious condition wake-ups and time-outs firing at any moment - for 8 scenario programs of 3-4 threads: "
+             "safety invariants and termination (= no waiter stays blocked) under strong fairness with unfair spurious wake-ups. "
+             "The state graphs yield schedules that the REAL threads follow through a cooperative scheduler whose pthread shim "
+             "implements the same model; seeded random terminating programs run under random schedules; every call/return event "
+             "is validated by TLC against PrimsAbs (windowed linearisation rules for mutual exclusion, tryLock, semaphore "
+             "conservation, manual-reset semantics, Monitor waits <= sets, time-outs, join result); deadlock / no termination "
+             "under the fair tail / use of destroyed primitives are violations.",
+        ref="5/C11", technique="TLA+ model checking incl. liveness (TLC) + schedule replay through cooperative scheduler + TLC trace validation",
+        note="Trusts TLC, the scheduler/pthread shim (harness/sched), sequential consistency at yield-point granularity; 2-5 threads, programs <= 6 calls."),
 }
 
 PENDING_REASON = "check not built yet in this revision of /verif (planned: see DESIGN.md section 5); not claimed until its machinery runs"
